@@ -178,6 +178,15 @@ def correspond(ctx, gen_ok):
             if res is not None:
                 tri.append((inp, '(Some ' + _coo_term(res) + ')', ('tri', len({Nu, Nv, Nw}) == 3 and nt >= 2 and mode in (0, 3), info)))
                 T = _run(ctx, 'stub:trilinear-toarray', 'TrilinearForm.assemble(...).toarray()', info, lambda: tform.assemble(*args, c=wc).toarray())
+                if T is not None and c < 5:
+                    # complex-valued trilinear form: the dense 3-tensor (COOData.toarray, N-tensor branch) keeps the imaginary part
+                    f3 = S.py_form3(k3)
+                    Tc = _run(ctx, 'stub:trilinear-complex', 'complex TrilinearForm.assemble(...).toarray()', info,
+                              lambda: TrilinearForm(lambda u, v, w, p: (1.0 + 2.0j) * f3(u, v, w, p), dtype=np.complex128).assemble(*args, c=wc).toarray())
+                    ctx.count(('trilinear-complex', info), nontrivial=True)
+                    if Tc is not None and not np.array_equal(Tc, (1.0 + 2.0j) * np.asarray(T)):
+                        ctx.fail('stub:trilinear-complex', 'the dense 3-tensor of a complex TrilinearForm is not (1+2j) times the real one '
+                                 '(imaginary part lost in COOData.toarray)', dict(info, got_dtype=str(np.asarray(Tc).dtype)))
                 if T is not None:
                     trid.append((inp, '(Some ' + clist([clist([clist([cz(x) for x in S.exact_ints(r)]) for r in m]) for m in T]) + ')',
                                  ('trid', True, info)))
